@@ -48,6 +48,8 @@ let parse (w : string list) : event =
   | ["ES3Effect"; r; uid] -> ES3Effect (z r, z uid)
   | ["ES3End"; r; ok] -> ES3End (z r, b ok)
   | ["EResult"; a; t; raised] -> EResult (z a, z t, b raised)
+  | ["EFs"; a; t; op] -> EFs (z a, z t, (match op with "open" -> FOpen | "write" -> FWrite | "close" -> FClose
+                                           | "rename" -> FRename | "remove" -> FRemove | s -> failwith ("fsop " ^ s)))
   | ["EShutdownBegin"] -> EShutdownBegin
   | ["EStageShutdown"; g] -> EStageShutdown (stage_of g)
   | ["EStageJoined"; g] -> EStageJoined (stage_of g)
@@ -70,8 +72,12 @@ let dump (s : state) : string =
     Printf.sprintf "U%s:t=%s:inflight=%s:completes=%s:abort=%s:aborts=%s:after=%s:while=%s"
       (string_of_z u.u_id) (string_of_z u.u_t) (string_of_z u.u_inflight) (string_of_z u.u_completes_ok)
       (bs u.u_abort_begun) (string_of_z u.u_abort_count) (bs u.u_begun_after_abort) (bs u.u_abort_while_inflight)) s.uploads in
+  let fs = List.map (fun f ->
+    Printf.sprintf "F%s:exists=%s:open=%s:renamed=%s:removed=%s:writes=%s:renames=%s"
+      (string_of_z f.f_t) (bs f.f_exists) (bs f.f_open) (bs f.f_renamed) (bs f.f_removed)
+      (string_of_z f.f_writes) (string_of_z f.f_renames)) s.files in
   let sm = List.map (fun (i, v) -> string_of_z i ^ "=" ^ string_of_z v) s.sems in
-  String.concat " " (cs @ us @ ["sems=" ^ String.concat "," sm;
+  String.concat " " (cs @ us @ fs @ ["sems=" ^ String.concat "," sm;
                                 "shutdown=" ^ string_of_z s.shutdown_phase;
                                 "after=" ^ string_of_z s.after_shutdown_events])
 
